@@ -10,7 +10,8 @@ package queueing
 //@ fn NewBuffer
 //@   property C14
 //@   label C14.new
-//@   ensures result.name == name && result.cap == capacity && len(result.elements) == 0
+//@   ensures result.name == name && result.cap == capacity && len(result.elements) == 0 && ref(result.elements) == 0
+//@   assigns nothing
 
 //@ fn (*Buffer[T]).Name
 //@   property C14
@@ -47,6 +48,8 @@ package queueing
 //@   ensures b.elements[old(len(b.elements))] == e
 //@   label C14.push.frame
 //@   ensures bufWF(b) && b.cap == old(b.cap) && b.name == old(b.name)
+//@   label C14.push.storage
+//@   ensures ref(b.elements) != 0 && (ref(b.elements) == old(ref(b.elements)) || fresh(b.elements))
 //@   assigns b.elements, elems(b.elements)
 
 //@ fn (*Buffer[T]).Peek
@@ -78,13 +81,13 @@ package queueing
 //@   label C14.pop.shift
 //@   ensures forall i in 0..len(b.elements) :: b.elements[i] == old(b.elements[i + 1])
 //@   label C14.pop.frame
-//@   ensures b.cap == old(b.cap) && b.name == old(b.name) && (old(bufWF(b)) ==> bufWF(b))
+//@   ensures b.cap == old(b.cap) && b.name == old(b.name) && (old(bufWF(b)) ==> bufWF(b)) && ref(b.elements) == old(ref(b.elements))
 //@   assigns b.elements
 
 //@ fn (*Buffer[T]).Clear
 //@   property C14
 //@   label C14.clear
-//@   ensures len(b.elements) == 0 && b.cap == old(b.cap) && b.name == old(b.name)
+//@   ensures len(b.elements) == 0 && b.cap == old(b.cap) && b.name == old(b.name) && ref(b.elements) == 0
 //@   assigns b.elements
 
 //@ fn (*Buffer[T]).Elements
@@ -107,5 +110,7 @@ package queueing
 //@   label C14.restore.frame
 //@   ensures b.cap == old(b.cap) && b.name == old(b.name) && bufWF(b)
 //@   label C14.restore.copy
-//@   ensures len(elements) > 0 ==> ref(b.elements) != ref(elements)
+//@   ensures len(elements) > 0 ==> ref(b.elements) != ref(elements) && fresh(b.elements)
+//@   label C14.restore.empty
+//@   ensures len(elements) == 0 ==> ref(b.elements) == 0
 //@   assigns b.elements
